@@ -796,7 +796,43 @@ func c08r6(rc *core.RC) {
 			id := as.Lhs[0].(*ast.Ident)
 			switch {
 			case cn == "encoder.NewMapContext":
-				rc.Check(kept[id.Name], fmt.Sprintf("%s.Run/keep %s", vm, id.Name), as.Pos(), "the map context, whose address is kept in a slot as uintptr, is appended to ctx.KeepRefs")
+				// kept on every way on: the append stands in the statement list of the definition itself, not in a branch
+				obj := core.ObjOf(info, id)
+				if obj == nil {
+					obj = info.Defs[id]
+				}
+				sibling := false
+				path := core.PathTo(fd.Body, as)
+				var list []ast.Stmt
+				for i := len(path) - 1; i >= 0 && list == nil; i-- {
+					switch x := path[i].(type) {
+					case *ast.BlockStmt:
+						list = x.List
+					case *ast.CaseClause:
+						list = x.Body
+					}
+				}
+				after := false
+				for _, st := range list {
+					if st == ast.Stmt(as) {
+						after = true
+						continue
+					}
+					if !after {
+						continue
+					}
+					if a2, isAs := st.(*ast.AssignStmt); isAs && len(a2.Lhs) == 1 && len(a2.Rhs) == 1 {
+						if f := core.FieldOf(info, a2.Lhs[0]); f != nil && f.Name() == "KeepRefs" {
+							ast.Inspect(a2.Rhs[0], func(q ast.Node) bool {
+								if i2, isID := q.(*ast.Ident); isID && obj != nil && info.Uses[i2] == obj {
+									sibling = true
+								}
+								return true
+							})
+						}
+					}
+				}
+				rc.Check(kept[id.Name] && sibling, fmt.Sprintf("%s.Run/keep %s", vm, id.Name), as.Pos(), "the map context, whose address is kept in a slot as uintptr, is appended to ctx.KeepRefs in the statement list that makes it (on every way on: an unordered map needs it as much as a sorted one, the iterator lives in it)")
 			case strings.HasSuffix(cn, ".ptrToUnsafePtr") && id.Name == "up":
 				rc.Check(kept[id.Name], fmt.Sprintf("%s.Run/keep %s", vm, id.Name), as.Pos(), "the interface word is appended to ctx.KeepRefs before its data pointer is stored as uintptr")
 			}
